@@ -503,6 +503,7 @@ pub fn build_small() -> Corpus {
     let extra = [
         ("multipart", "contract MP { function f ( bool c ) public { require ( c , \"insufficient~\" \"balance\" ) ; require ( c , \"this~part~is~long~enough~\" \"to~pass~thirty-two~bytes~in~total\" ) ; require ( c , unicode\"é\" 'x' ) ; } }"),
         ("safemath", "contract SM { using SafeMath for uint256 ; function f ( uint256 a , uint256 b ) public returns ( uint256 ) { return a . add ( b ) . mul ( a . sub ( b ) ) . div ( 2 ) ; } }"),
+        ("signatures-in-strings", "contract En { event Log ( string s ) ; function f ( address t , bool c ) public { t . call ( abi . encodeWithSignature ( \"transfer(address,uint256)\" , t , 1 ) ) ; t . call ( abi . encodeWithSelector ( bytes4 ( keccak256 ( \"approve(address,uint256)\" ) ) , t , 1 ) ) ; require ( c , \"transfer(address,uint256)~failed\" ) ; emit Log ( \"approve(address,uint256)\" ) ; emit Log ( \"selfdestruct(a);~x++;~a.balance\" ) ; } }"),
         ("longstring", "contract LS { function f ( bool c ) public { require ( c , \"this~revert~string~is~longer~than~thirty-two~bytes\" ) ; require ( c , \"short\" ) ; } }"),
     ];
     let mut items: Vec<(String, Vec<String>)> = Vec::new();
